@@ -1454,6 +1454,25 @@ func (e *c20Env) glue() map[string]bool {
 	metrics.NewPrometheusMetricsBuilder(regD, "d", "").NewRouterMiddleware().Middleware(func(*message.Message) ([]*message.Message, error) { return nil, nil })(message.NewMessage("u", nil))
 	res["nil HandlerBuckets give the 11 default handler buckets 0.0005 .. 1"] =
 		eqF(bounds(regD, "d_handler_execution_time_seconds"), []float64{0.0005, 0.001, 0.0025, 0.005, 0.01, 0.025, 0.05, 0.1, 0.25, 0.5, 1})
+	// a nil message from the wrapped subscriber: forwarded unchanged by the transform decorator (the transform
+	// sees it) and by the metrics decorator (recordMetrics guards it), nothing recorded, no panic
+	regN := prometheus.NewRegistry()
+	innerN := newC20Sub()
+	sawNil := false
+	tN, _ := message.MessageTransformSubscriberDecorator(func(m *message.Message) { sawNil = sawNil || m == nil })(innerN)
+	decN, _ := metrics.NewPrometheusMetricsBuilder(regN, "n", "").DecorateSubscriber(tN)
+	okNil := false
+	if chN, err := decN.Subscribe(context.Background(), "t"); err == nil {
+		go innerN.emit(nil, 10*time.Second)
+		select {
+		case got, open := <-chN:
+			tabN, _ := c20Gather(regN, "n_subscriber_messages_received_total", []string{"acked"})
+			okNil = open && got == nil && sawNil && c20Total(tabN) == 0
+		case <-time.After(15 * time.Second):
+		}
+		decN.Close()
+	}
+	res["a nil message passes the transform and the metrics subscriber decorators unchanged and unrecorded"] = okNil
 	return res
 }
 
